@@ -261,15 +261,13 @@ func (h H) errPathsMode(fn *ssa.Function, c *ssa.Call, e ssa.Value, errIdx int, 
 	// path-sensitive for phis: env maps each phi met on the path to the value
 	// it takes along this path, so that `if err == nil {err = g()}; if err !=
 	// nil {return err}` is followed only along feasible branches.
-	type env map[*ssa.Phi]ssa.Value
+	// env: value of each phi, of each local cell (Alloc) and of each load of
+	// a local cell, along the path being walked
+	type env map[ssa.Value]ssa.Value
 	resolve := func(v ssa.Value, en env) ssa.Value {
 		for i := 0; i < 8; i++ {
-			p, ok := v.(*ssa.Phi)
-			if !ok {
-				return v
-			}
-			nv, ok := en[p]
-			if !ok {
+			nv, ok := en[v]
+			if !ok || nv == v {
 				return v
 			}
 			v = nv
@@ -296,7 +294,7 @@ func (h H) errPathsMode(fn *ssa.Function, c *ssa.Call, e ssa.Value, errIdx int, 
 				if !ok {
 					break
 				}
-				ne[phi] = resolve(phi.Edges[i], en)
+				ne[ssa.Value(phi)] = resolve(phi.Edges[i], en)
 			}
 			break
 		}
@@ -324,6 +322,16 @@ func (h H) errPathsMode(fn *ssa.Function, c *ssa.Call, e ssa.Value, errIdx int, 
 				return
 			}
 			switch x := in.(type) {
+			case *ssa.Store:
+				if al, ok := x.Addr.(*ssa.Alloc); ok {
+					en[ssa.Value(al)] = resolve(x.Val, en)
+				}
+			case *ssa.UnOp:
+				if al, ok := x.X.(*ssa.Alloc); ok && x.Op == token.MUL {
+					if cur, had := en[ssa.Value(al)]; had {
+						en[ssa.Value(x)] = cur
+					}
+				}
 			case *ssa.Call:
 				if f := x.Common().StaticCallee(); f != nil && f.Name() == "assert" && len(x.Common().Args) == 1 {
 					if is, trueIsErr := nilTest(x.Common().Args[0], e); is && !trueIsErr {
@@ -345,7 +353,9 @@ func (h H) errPathsMode(fn *ssa.Function, c *ssa.Call, e ssa.Value, errIdx int, 
 					return
 				}
 				if mode == 0 {
-					if !errDerived(r, e, 0) {
+					raw := retOperand(x, errIdx)
+					_, known := en[raw]
+					if (known && r != e && !errDerived(r, e, 0)) || (!known && !errDerived(r, e, 0)) {
 						bad = fmt.Sprintf("return at %s does not hand on this step's unexamined error", h.pos(x))
 					}
 				} else if isNilConst(r) {
@@ -383,7 +393,15 @@ func (h H) errPathsMode(fn *ssa.Function, c *ssa.Call, e ssa.Value, errIdx int, 
 					}
 				}
 				if mode == 0 {
-					if is, trueIsErr := nilTest(x.Cond, e); is {
+					known := false
+					if bo, ok := x.Cond.(*ssa.BinOp); ok {
+						for _, o := range []ssa.Value{bo.X, bo.Y} {
+							if _, in := en[o]; in {
+								known = true // the operand's value on this path is known, and it is not e
+							}
+						}
+					}
+					if is, trueIsErr := nilTest(x.Cond, e); is && !known {
 						errSucc := b.Succs[1]
 						if trueIsErr {
 							errSucc = b.Succs[0]
